@@ -55,6 +55,8 @@ type act struct {
 var kindNames = []string{"stream", "trace", "connlimit", "ratelimit", "cbreaker", "roundrobin", "rebalancer", "buffer"}
 var documented = map[int64]int64{2: 429, 3: 429, 4: 503, 5: 500, 6: 500, 7: 413}
 
+// proto: 0 HTTP/1.1 | 1 HTTP/2 | 2, 3: the same, and the stack has served one request before whose handler aborted by
+// panicking (http.ErrAbortHandler): that request has ended and must have left nothing behind
 func decodeOp(op []int64) (layers []layerSpec, acts []act, proto int64, ok bool) {
 	if len(op) < 2 {
 		return nil, nil, 0, false
@@ -71,7 +73,7 @@ func decodeOp(op []int64) (layers []layerSpec, acts []act, proto int64, ok bool)
 		layers = append(layers, layerSpec{k, op[2+3*i], op[3+3*i]})
 	}
 	proto = op[1+3*nl]
-	if proto != 0 && proto != 1 {
+	if proto < 0 || proto > 3 {
 		return nil, nil, 0, false
 	}
 	r := op[1+3*nl+1:]
@@ -227,7 +229,7 @@ func scripted(acts []act, p *probe) http.Handler {
 
 var backendURL, _ = url.Parse("http://backend.example:80")
 
-func buildStack(layers []layerSpec, inner http.Handler) (http.Handler, error) {
+func buildStack(layers []layerSpec, inner http.Handler, prelude bool) (http.Handler, error) {
 	h := inner
 	// one source for everybody: the loopback server may listen on 127.0.0.1 or, when that fails under port pressure, on
 	// [::1], and the request that uses up the rate limiter's token must count for the same source as the real one
@@ -254,6 +256,9 @@ func buildStack(layers []layerSpec, inner http.Handler) (http.Handler, error) {
 			h = t
 		case 2:
 			max := int64(100)
+			if prelude {
+				max = 1 // the aborted request before has ended: its slot is free again
+			}
 			if l.intervenes != 0 {
 				max = 0
 			}
@@ -264,7 +269,11 @@ func buildStack(layers []layerSpec, inner http.Handler) (http.Handler, error) {
 			h = c
 		case 3:
 			rates := ratelimit.NewRateSet()
-			_ = rates.Add(time.Hour, 1, 1)
+			burst := int64(1)
+			if prelude {
+				burst = 2 // one token for the aborted request before, one for the exchange
+			}
+			_ = rates.Add(time.Hour, 1, burst)
 			sw := &switchHandler{}
 			sw.set(http.HandlerFunc(func(w http.ResponseWriter, r *http.Request) {}))
 			tl, err := ratelimit.New(sw, extract, rates)
@@ -273,9 +282,11 @@ func buildStack(layers []layerSpec, inner http.Handler) (http.Handler, error) {
 			}
 			if l.intervenes != 0 {
 				// use up the single token of this client's address
-				req := httptest.NewRequest(http.MethodGet, "http://x/", nil)
-				req.RemoteAddr = "127.0.0.1:1"
-				tl.ServeHTTP(httptest.NewRecorder(), req)
+				for k := int64(0); k < burst; k++ {
+					req := httptest.NewRequest(http.MethodGet, "http://x/", nil)
+					req.RemoteAddr = "127.0.0.1:1"
+					tl.ServeHTTP(httptest.NewRecorder(), req)
+				}
 			}
 			sw.set(next)
 			h = tl
@@ -332,6 +343,27 @@ func buildStack(layers []layerSpec, inner http.Handler) (http.Handler, error) {
 		}
 	}
 	return h, nil
+}
+
+// buildWithPrelude builds the stack and, when asked, first sends one request through it whose handler aborts by
+// panicking with http.ErrAbortHandler (what httputil.ReverseProxy does when a backend dies mid-body)
+func buildWithPrelude(layers []layerSpec, inner http.Handler, prelude bool) (http.Handler, error) {
+	if !prelude {
+		return buildStack(layers, inner, false)
+	}
+	sw := &switchHandler{}
+	sw.set(http.HandlerFunc(func(http.ResponseWriter, *http.Request) { panic(http.ErrAbortHandler) }))
+	top, err := buildStack(layers, sw, true)
+	if err != nil {
+		return nil, err
+	}
+	func() {
+		defer func() { _ = recover() }()
+		req := httptest.NewRequest(http.MethodPost, "http://x/some/path?q=1", strings.NewReader("0123456789"))
+		top.ServeHTTP(httptest.NewRecorder(), req)
+	}()
+	sw.set(inner)
+	return top, nil
 }
 
 type failingSink struct{}
@@ -462,7 +494,7 @@ func (c *stackComp) Gen(rng *rand.Rand, idx int, tier string, targeted bool) hli
 			}
 			op = append(op, k, iv, hlib.B2i(rng.Intn(3) == 0))
 		}
-		op = append(op, hlib.B2i(rng.Intn(4) == 0)) // protocol: 0 HTTP/1.1, 1 HTTP/2
+		op = append(op, hlib.B2i(rng.Intn(4) == 0)+2*hlib.B2i(rng.Intn(4) == 0)) // protocol: 0 HTTP/1.1, 1 HTTP/2; +2: after an aborted request
 		hij := rng.Intn(8) == 0
 		if hij {
 			op = append(op, 4) // hijack attempt; what follows is the fallback when hijacking is impossible
@@ -510,10 +542,15 @@ func (c *stackComp) Run(h *hlib.History) ([]hlib.Mon, bool) {
 		if !ok {
 			return nil, false
 		}
+		prelude := proto >= 2
+		proto %= 2
 		p := &probe{}
-		top, err := buildStack(layers, scripted(acts, p))
+		top, err := buildWithPrelude(layers, scripted(acts, p), prelude)
 		if err != nil {
 			return nil, false
+		}
+		if prelude {
+			hlib.Count("exchanges_after_an_aborted_request", 1)
 		}
 		var flushes int32
 		badCookies := (len(acts)+len(layers))%2 == 0
@@ -523,7 +560,7 @@ func (c *stackComp) Run(h *hlib.History) ([]hlib.Mon, bool) {
 			hlib.Count("exchanges_redone_after_port_exhaustion", 1)
 			time.Sleep(time.Duration(200*(try+1)) * time.Millisecond)
 			p = &probe{}
-			if top, err = buildStack(layers, scripted(acts, p)); err != nil {
+			if top, err = buildWithPrelude(layers, scripted(acts, p), prelude); err != nil {
 				return nil, false
 			}
 			atomic.StoreInt32(&flushes, 0)
@@ -640,7 +677,7 @@ func (c *stackComp) Describe(h *hlib.History) interface{} {
 				as = append(as, fmt.Sprintf("Set-Cookie app=%d", a.a))
 			}
 		}
-		s := describeLayers(layers) + []string{" http/1.1", " h2"}[proto] + " handler{" + strings.Join(as, "; ") + "}"
+		s := describeLayers(layers) + []string{" http/1.1", " h2", " http/1.1 after an aborted request", " h2 after an aborted request"}[proto] + " handler{" + strings.Join(as, "; ") + "}"
 		if i < len(h.Obs) {
 			s += fmt.Sprintf(" -> %v", h.Obs[i])
 		}
